@@ -21,6 +21,8 @@ FAbs(a)     == CHOOSE x \in Dbl : TRUE
 FSqrt(a)    == CHOOSE x \in Dbl : TRUE
 FExp(a)     == CHOOSE x \in Dbl : TRUE
 FLog(a)     == CHOOSE x \in Dbl : TRUE
+FExpm1(a)   == CHOOSE x \in Dbl : TRUE
+FLog1p(a)   == CHOOSE x \in Dbl : TRUE
 FSin(a)     == CHOOSE x \in Dbl : TRUE
 FCos(a)     == CHOOSE x \in Dbl : TRUE
 FTan(a)     == CHOOSE x \in Dbl : TRUE
